@@ -11,6 +11,8 @@ use super::*;
 //@include prelude/hof.rs
 //@include prelude/resolve_spec.rs
 //@include prelude/resolve_l2.rs
+//@include prelude/refs_l2_min.rs
+//@include prelude/order_l2.rs
 } // mod pre
 use pre::*;
 
